@@ -129,7 +129,7 @@ def snapshot(engine):
                 cost=float(res.cost), rows=rows, price=float(np.ravel(st.price(no_control_variates=True))[0]))
 
 
-def run_mlmc(history, L0, N0, level_max, seed=None, nb_of_processes=1, coupling=None, product=None):
+def run_mlmc(history, L0, N0, level_max, seed=None, nb_of_processes=1, coupling=None, product=None, control_variates=None):
     """history: list of (Ns, conv, Ns2).  Returns dict(outcome, reads=[snapshot…], final=snapshot|None, log, engine).
     Call pattern of one loop iteration of Engine.price: compute_mc_paths [-> criteria [-> compute_mc_paths]]."""
     log, reads = [], []
@@ -163,7 +163,7 @@ def run_mlmc(history, L0, N0, level_max, seed=None, nb_of_processes=1, coupling=
     cfg = ConfigurationMultiLevel(convergence_rates=ConvergenceRates(alpha=1.0, beta=2.0, gamma=1.0),
                                   convergence_criteria=ConvergenceCriteria(criteria=criteria, compute_mc_paths=compute_mc_paths),
                                   initial_level=L0, maximum_level=level_max, initial_mc_paths=N0, seed=seed,
-                                  nb_of_processes=nb_of_processes)
+                                  nb_of_processes=nb_of_processes, control_variates=control_variates)
     eng = MLMCEngine(configuration=cfg, coupling_process=coupling if coupling is not None else FakeCoupling(log))
     holder["engine"] = eng
     outcome = "ret"
